@@ -51,7 +51,8 @@ class SourceIndex:
                     break
             else:
                 raise KeyError(f"no class {p} in {rel}")
-        cands = [n for n in body if isinstance(n, ast.FunctionDef) and n.name == parts[-1]]
+        cands = [n for n in body if isinstance(n, ast.FunctionDef) and n.name == parts[-1]
+                 and "overload" not in [ast.unparse(d) for d in n.decorator_list]]
         if not cands:
             raise KeyError(f"no function {qual} in {rel}")
         # property getter preferred over setter; for multimethod registrations the caller picks by ordinal
@@ -66,6 +67,8 @@ class SourceIndex:
             for n in cd.body:
                 if isinstance(n, ast.FunctionDef) and n.name == name:
                     decos = [ast.unparse(d) for d in n.decorator_list]
+                    if "overload" in decos:
+                        continue
                     if kind == "getter" and "property" not in decos:
                         continue
                     if kind == "setter" and not any(d.endswith(".setter") for d in decos):
